@@ -22,7 +22,7 @@ PROPS = {
                     'pedal.core.final_feedback:set_correct_no_errors',
                     'pedal.core.final_feedback:FinalFeedback.finalize', 'pedal.core.feedback:Feedback.__bool__',
                     'pedal.core.report:Report.suppress'],
-        'clause_exclude': [r'merge\.correct_', r'merge\.success_is', r'finalize\.correct_', r'finalize\.score_',
+        'clause_exclude': [r'merge\.correct_', r'merge\.success_is', r'merge\.score_', r'finalize\.correct_', r'finalize\.score_',
                            r'finalize\.success_is'],
         'native': 'c01', 'native_arg': {'prop': 'C01'},
         'level': 'proof',
@@ -53,17 +53,23 @@ PROPS = {
         'sidecars': ['contracts/c01_priority.py', 'contracts/c01_merge.py', 'contracts/c03_scoring.py',
                      'contracts/c01_resolve.py'],
         'targets': ['pedal.core.scoring:Score.add_to_current', 'pedal.core.scoring:combine_scores',
-                    'pedal.core.final_feedback:FinalFeedback.finalize'],
+                    'pedal.core.final_feedback:FinalFeedback.finalize', 'pedal.core.final_feedback:FinalFeedback.merge'],
         'clause_include': [r'add_to_current', r'combine_scores', r'finalize\.score_', r'finalize\.call',
-                           r'finalize\.raises', r'finalize\.frame'],
+                           r'finalize\.raises', r'finalize\.frame', r'merge\.score_', r'merge\.cut', r'merge\.loop',
+                           r'merge\.frame', r'merge\.call', r'merge\.raises'],
         'native': 'c01', 'native_arg': {'prop': 'C03'},
         'level': 'proof',
         'explanation': 'Score.add_to_current (operator x invert table) and combine_scores (fold invariant: total = sum '
                        'of contributions, for every list length) verified; finalize installs that sum unless the '
-                       'default all-correct result applies. Valence/trigger selection in merge and Score.parse are '
-                       'covered by the bounded stand-ins B-resolve / B-score.',
+                       'default all-correct result applies. merge appends exactly one entry per unsuppressed, not-unscored '
+                       'feedback carrying a score, marked as not counting exactly when the valence/trigger table of the '
+                       'statement says so, and leaves the list alone otherwise (verified, through both cut points). '
+                       'Score.parse and the composition over the resolve() loop are covered by the bounded stand-ins '
+                       'B-score / B-resolve.',
         'trusted_base': ['Score.parse readings of a score string (inverted, operator, value): assumed, B-score',
-                         'floats are exact reals; round(x, 2) is an uninterpreted function (A-float)'],
+                         'floats are exact reals; round(x, 2) is an uninterpreted function (A-float)',
+                         'str() of a score and f-string concatenation as the engine models them (str_of, Appendix B)',
+                         'the resolve() loop calls merge once per feedback: bounded stand-in B-resolve only'],
     },
     'C15': {
         'sidecars': ['contracts/c15_io.py'],
@@ -109,7 +115,7 @@ PROPS = {
     },
     'C05': {
         'sidecars': ['contracts/c05_patches.py'],
-        'more_sidecar_groups': [['contracts/c05_tracer.py']],
+        'more_sidecar_groups': [['contracts/c05_tracer.py'], ['contracts/c14_abandoned.py']],
         'native': 'c05', 'native_arg': {'prop': 'C05'}, 'ground': False,
         'level': 'proof',
         'explanation': '_execute verified from the real source with compile/exec as abstract callees raising ANY exception '
@@ -117,8 +123,10 @@ PROPS = {
                        'any other BaseException, a failure inside _capture_exception - both stacks have their entry length, '
                        'every started patch was stopped (ghost counter) and the tracer context manager was exited; '
                        '_start_patches/_stop_patches/_stop_mocking with loop invariants. _start_mocking and what the '
-                       'unittest.mock patches restore are observed by the exhaustive bounded product B-sandbox. The timeout '
-                       'path is C14.',
+                       'unittest.mock patches restore are observed by the exhaustive bounded product B-sandbox. A worker that '
+                       'the waiting thread has abandoned after a timeout stops no patches and pops no buffer however its '
+                       'student code ends (second view of _execute, contracts/c14_abandoned.py: those belong to the next '
+                       'execution by then). The timeout path itself is C14.',
         'trusted_base': ['unittest.mock patch.start/stop are inverse (ghost counter live_patches)',
                          '_start_mocking pushes one stdout buffer and one group of three started patches (assumed; B-sandbox)',
                          'tracer __enter__/__exit__ install and remove the trace function and do not suppress exceptions',
